@@ -1,4 +1,4 @@
-//go:build verif
+//go:build verif && !verifpub
 
 package main
 
@@ -28,10 +28,23 @@ func driveSchnorr(c *ctx) {
 		k, err := bitcoin.NewSchnorrPublicKey(append([]byte{}, b...))
 		if err != nil {
 			c.E("schnorr.NewPub", "in", hx(b), "ok", false, "bytes", "", "point", "")
+			// a rejected input is offered again at once: what an error path leaves behind must not change the answer
+			if k2, err2 := bitcoin.NewSchnorrPublicKey(append([]byte{}, b...)); err2 == nil {
+				c.E("schnorr.NewPub", "in", hx(b), "ok", true, "bytes", hx(k2.Bytes()), "point", hx(k2.Point().UncompressedBytes()), "second_try", true)
+			}
 			return nil
 		}
 		c.E("schnorr.NewPub", "in", hx(b), "ok", true, "bytes", hx(k.Bytes()), "point", hx(k.Point().UncompressedBytes()))
 		return k
+	}
+	// x-coordinates next to the 64-bit limb boundaries below p (2^256 - 2^64k + i), on and off the curve, and a valid import just
+	// before each rejected one
+	for _, k := range []uint{64, 128, 192} {
+		base := new(big.Int).Sub(big2_256, pow2(k))
+		for i := int64(0); i < int64(c.scale(12, 64)); i++ {
+			newPub(be32(add(base, i))[:])
+			newPub(be32(add(base, -1-i))[:])
+		}
 	}
 	for i := 0; i < c.scale(30, 500); i++ {
 		x := randBig(rng, bigP)
